@@ -5,7 +5,7 @@ From Coq Require Import Reals List String.
 From OV.base Require Import Num.
 From OV.model Require Import M_C06_Vec M_C06_CG M_C01_TR M_C01_CFG M_C01_Drv.
 From OV.gen Require Import CFG_TR.
-From OV.proofs Require Import L_C06_Vec L_C01 L_C01_F1 L_C01_CFG L_C01_Drv L_C01_NaN.
+From OV.proofs Require Import L_C06_Vec L_C01 L_C01_F1 L_C01_CFG L_C01_Drv L_C01_NaN L_C01_Outer.
 Import ListNotations.
 Local Open Scope R_scope.
 
@@ -83,6 +83,33 @@ Theorem C01_extracted_tree_shape :
   /\ tr_forbody = removelast tr_forbody ++ [SWhile tr_wcond tr_wbody].
 Proof. exact tr_shape. Qed.
 
+(* ---- the outer loop of trust_region_minimize (round 4, second pass; item (f) below).  For EVERY number type, all oracles, all settings, all
+   values of the local variables L (no hypothesis on them: the `for` body re-creates its lambdas), every iteration count n, loop index i
+   and `while` budget: running n passes of the extracted `for` body (located in the tree by computation: tr_forbody -- Cauchy-point block,
+   CG call or boundary short-cut, cumulativeCgIters, then the `while`) followed by the extracted statements after the loop (tr_epilogue: the
+   max-iterations exit with its check_stability / callback) gives exactly what the hand model's `outer n` gives (propose + inner, n times,
+   then EMaxIters): same returned point and flag, same callback / update_precond sequence; out of `while` budget on one side iff on the other. *)
+Theorem C01_outer_loop_is_the_extracted_source : forall (T : Type) (NT : Num T) (value : list T -> T) (grad : list T -> list T)
+    (hessvec precond mult_approx : list T -> list T -> list T) (S : settings T) (chk : bool) (fuel F0 n i : nat)
+    (L : live) (J : string -> val) (xp0 : list T) (tr0 : list rawev),
+  result_of (match for_loop (fun j st' => @block T NT value grad hessvec precond mult_approx S chk fuel cfg_functions cfg_string_constants
+                                             (71 + F0) tr_forbody (assign tr_fori (VN j) st')) n i (mkst L J xp0 tr0) with
+             | ONormal st' => @block T NT value grad hessvec precond mult_approx S chk fuel cfg_functions cfg_string_constants (72 + F0) tr_epilogue st'
+             | o => o end)
+  = prefix_result tr0 (raw_result chk (@outer T NT value grad hessvec precond mult_approx S n fuel (hand L xp0))).
+Proof. exact (@for_outer). Qed.
+
+(* ... and with the nine statements before the loop (g, o, gNorm, the initial convergence test with its callback / return): the WHOLE extracted
+   function, called as trust_region_minimize(objective, x, settings, callback) with a callable callback, interpreted from its syntax tree,
+   IS the hand model -- same returned point, flag and callback / update_precond sequence; no result on one side (out of `while` budget) iff
+   none on the other.  For every number type, all oracles, settings, check_stability flag, start point, preconditioner state, budgets. *)
+Theorem C01_extracted_solver_is_the_hand_model : forall (T : Type) (NT : Num T) (value : list T -> T) (grad : list T -> list T)
+    (hessvec precond mult_approx : list T -> list T -> list T) (S : settings T) (fuel : nat) (chk : bool) (F0 : nat) (x xp0 : list T),
+  result_of (@run T NT value grad hessvec precond mult_approx S chk fuel cfg_functions cfg_string_constants (82 + F0)
+               cfg_trust_region_minimize [VObj; VV x; VSet; VCb] xp0)
+  = raw_result chk (@trust_region_minimize T NT value grad hessvec precond mult_approx S fuel x xp0).
+Proof. exact (@extracted_solver_is_hand_model). Qed.
+
 (* ---- the driver nonlinear_equation_solve (round 4).  model/M_C01_Drv.v interprets ITS syntax tree as extracted from /repo on every run
    (gen/CFG_TR.v: cfg_nonlinear_equation_solve), with a meaning for the attribute store `objective.p = p`: the objective's oracles are
    functions of the parameter value that is current when they are CALLED (any type P), update_precond remembers the parameter it was
@@ -133,6 +160,18 @@ Theorem C01_driver_success_means_small_gradient_under_requested_parameters : for
                 cfg_functions (20 + F0) cfg_nonlinear_equation_solve x0 p (cb_val has_cb) uw up par pcp xp) = Some (x, true, par', pcp', xp', tr) ->
   par' = p /\ exists xBar, x = smul invScaling xBar /\ grad p xBar ⋅ grad p xBar < @tol2 R NumR S.
 Proof. exact driver_success_small_gradient. Qed.
+
+(* the same with the INTERPRETED EXTRACTED trust_region_minimize (solver_tree: the callee's own syntax tree, re-extracted from /repo on every
+   run) as the solver instead of the hand model -- i.e. driver AND solver are both the source text; call with a callback *)
+Theorem C01_driver_success_means_small_gradient_under_requested_parameters_extracted_solver : forall (P : Type) (value : P -> list R -> R)
+    (grad : P -> list R -> list R) (hessvec : P -> list R -> list R -> list R) (precond mult_approx : P -> P -> list R -> list R -> list R)
+    (warm : P -> P -> list R -> list R -> P -> list R) (scaling invScaling : scal R) (S : settings R) (chk : bool) (wfuel F0 F1 : nat)
+    (x0 : list R) (p : P) (uw up : bool) (par pcp : P) (xp x : list R) (par' pcp' : P) (xp' : list R) tr,
+  dresult_of (@drun_default R NumR P warm scaling invScaling
+                (@solver_tree R NumR P value grad hessvec precond mult_approx S chk wfuel cfg_functions cfg_string_constants (82 + F1))
+                cfg_functions (20 + F0) cfg_nonlinear_equation_solve x0 p (cb_val true) uw up par pcp xp) = Some (x, true, par', pcp', xp', tr) ->
+  par' = p /\ exists xBar, x = smul invScaling xBar /\ grad p xBar ⋅ grad p xBar < @tol2 R NumR S.
+Proof. exact driver_success_small_gradient_tree. Qed.
 
 Example C01_driver_success_nonvacuous :
   exists x tr, dresult_of (@drun_default R NumR unit (fun _ _ _ _ _ => []) (ScS 1) (ScS 1)
@@ -187,14 +226,17 @@ Proof. exact nan_hypothesis_satisfiable. Qed.
    (d) float-only corner: modelObjective = +0.0 makes the denominator -0.0 and flips the infinities (an uphill step with
    exactly zero predicted change would be accepted); over R the zero is unsigned.  The binary64 model reproduces it and the
    exact-switch stream of the harness probes it.
-   (e) CLOSED in round 4 for the driver's own code (three theorems above).  Residue: the last theorem has the HAND model of
-   trust_region_minimize as the solver; with the solver's own extracted tree (solver_tree) as the callee it needs item (f).  Both solvers
-   are run against each other and against the implementation by the harness (stream driver_model).  Exceptions (a raising solver or warm
-   start) are not modelled; that warm_start_increment does not modify the objective is checked syntactically on WarmStart.py by the harness;
-   (f) the structural tie covers the inner `while` loop (all decisions of a trust-region pass).  The statements before it -- initial
-   convergence test, Cauchy-point block, call of the CG sub-solver -- the outer `for` and the max-iterations exit are extracted and
-   interpreted too, but their agreement with the hand model (propose / outer / trust_region_minimize) is only checked by running both on
-   the harness's cases (bit-for-bit, stream extracted_tree_vs_hand_model), not yet proved by induction over the outer loop. *)
+   (e) CLOSED in round 4 for the driver's own code (three theorems above) and, second pass, with the solver's own extracted tree as
+   the callee (C01_driver_success_..._extracted_solver) for calls WITH a callback.  Residue: callback=None with the extracted solver (the
+   state shape of the tie fixes `callback` to a callable; the hand-model version covers both); the hypothesis of the extracted-solver
+   theorem is exercised on real runs by the harness (stream driver_model runs solver_tree in binary64), no Coq `Example` over R for it.
+   Exceptions (a raising solver or warm start) are not modelled; that warm_start_increment does not modify the objective is checked
+   syntactically on WarmStart.py by the harness;
+   (f) CLOSED in the second pass for calls with a callback: inner `while` (round 3), outer `for` with the Cauchy-point block, the CG call and
+   the max-iterations exit (C01_outer_loop_is_the_extracted_source) and the statements before the loop incl. the initial convergence test
+   (C01_extracted_solver_is_the_hand_model), all for all inputs.  Residue: callback=None (then `if callback:` skips the calls; the harness
+   compares that variant by execution, stream extracted_tree_vs_hand_model / driver_model); the meaning of the Python subset itself is the
+   interpreter's (model/M_C01_CFG.v), validated against the implementation only by execution. *)
 
 Example C01_nonvacuous :
   0 < s_t1 default_settings_R < 1 /\ 0 < s_min_tr_size default_settings_R /\
@@ -208,6 +250,9 @@ Print Assumptions C01_trace_properties.
 Print Assumptions C01_inner_loop_terminates.
 Print Assumptions C01_converged_exit_can_go_uphill_refuted_binary64.
 Print Assumptions C01_inner_loop_is_the_extracted_source.
+Print Assumptions C01_outer_loop_is_the_extracted_source.
+Print Assumptions C01_extracted_solver_is_the_hand_model.
+Print Assumptions C01_driver_success_means_small_gradient_under_requested_parameters_extracted_solver.
 Print Assumptions C01_driver_is_the_extracted_source.
 Print Assumptions C01_nan_valued_point_is_never_accepted_binary64.
 Print Assumptions C01_driver_success_means_small_gradient_under_requested_parameters.
